@@ -564,3 +564,60 @@ Print Assumptions compose_jwe_x_prot_extends.
 Print Assumptions compose_c09_transport_rt_jwe.
 Print Assumptions compose_c09_rt_jwe.
 Print Assumptions compose_jwe_overwrite_not_extension.
+
+(* ================================================================== *)
+(* Part 4 — end to end: jwt.decode over the JWE pipeline                 *)
+(* ================================================================== *)
+From Proofs Require ComposeJweSound.
+
+Section ComposeJwtJweSound.
+  Variable O : oracles.
+  Variable g : registry.
+  Variable tbl : list jwe_alg_row.
+  Variable recommended : list string.
+  Variable allowed : option (list string).
+  Variable reg : list hparam.
+  Variable strict : bool.
+  Hypothesis check_header_is_c15 : forall hs cm,
+    o_check_header O (PDict hs) cm = C15Registry.jwe_check_header tbl recommended allowed reg strict hs cm.
+  Variable zdec : C17Zip.zoracle.
+  Hypothesis inflate_is_c17 : forall x, o_inflate O x = C17Zip.decompress zdec x.
+  Variable json_loads : bytes -> res pv.
+
+  Notation accepted := (ComposeJweSound.jwe_accepted O g tbl recommended allowed reg strict zdec).
+
+  (* [jwe_accepted k sender tok h m]: tok parsed to ob with protected header h; perform_decrypt
+     gave m; the AEAD accepted ciphertext / tag / AAD under a CEK of the size of enc (C02); the zip
+     step is decided by the PROTECTED header only and is C17's decompress; |m| <= 256000 with zip
+     (C17); enc, every recipient's alg and zip are registered names of the effective allow-list
+     (C05); every recipient's merged header satisfies C15's spec; the CEK came from a recipient
+     whose key passed the key-type gate (C06) *)
+  Theorem compose_jwt_decode_jwe_sound : forall k sender tok h v,
+    C09Jwt.decode json_loads (jwe_tdec O g k sender) tok = Ok (h, v) ->
+    is_dict v = true /\ exists m, accepted k sender tok h m /\ json_loads m = Ok v.
+  Proof.
+    exact (ComposeJweSound.jwt_decode_jwe_sound O g tbl recommended allowed reg strict
+             check_header_is_c15 zdec inflate_is_c17 json_loads).
+  Qed.
+
+  Theorem compose_jwe_tdec_accepted : forall k sender tok h m,
+    jwe_tdec O g k sender tok = Ok (h, m) -> accepted k sender tok h m.
+  Proof.
+    exact (ComposeJweSound.jwe_tdec_accepted O g tbl recommended allowed reg strict
+             check_header_is_c15 zdec inflate_is_c17).
+  Qed.
+
+  Theorem compose_jwt_decode_jwe_forged : forall k sender tok e,
+    decrypt_compact O g tok k sender = Err e ->
+    C09Jwt.decode json_loads (jwe_tdec O g k sender) tok = Err e.
+  Proof. exact (ComposeJweSound.jwt_decode_jwe_forged O g json_loads). Qed.
+End ComposeJwtJweSound.
+
+(* non-vacuity of the forged direction: a token that is not five segments is refused *)
+Example compose_ex_jwt_decode_jwe_forged : forall O g k sender,
+  decrypt_compact O g (asc "a.b.c") k sender = Err EValue.
+Proof. reflexivity. Qed.
+
+Print Assumptions compose_jwt_decode_jwe_sound.
+Print Assumptions compose_jwe_tdec_accepted.
+Print Assumptions compose_jwt_decode_jwe_forged.
